@@ -44,6 +44,9 @@ type PacketDslFormattor struct {
 }
 
 func (v *PacketDslFormattor) getHiddenLeft(token antlr.Token) string {
+	if token == nil {
+		return ""
+	}
 	hidden := v.tokenStream.GetHiddenTokensToLeft(token.GetTokenIndex(), antlr.TokenHiddenChannel)
 	if hidden == nil {
 		return ""
@@ -63,6 +66,9 @@ func (v *PacketDslFormattor) getHiddenLeft(token antlr.Token) string {
 }
 
 func (v *PacketDslFormattor) getHiddenRightAtSameLine(token antlr.Token) string {
+	if token == nil {
+		return ""
+	}
 	hidden := v.tokenStream.GetHiddenTokensToRight(token.GetTokenIndex(), antlr.TokenHiddenChannel)
 	if hidden == nil {
 		return ""
